@@ -9,7 +9,7 @@ expression into the lab and executes it; the rebuilt builder.internal must be wh
 `replay` predicts.  Oracle: the property itself — the text is a Go expression that compiles, the
 rebuilt object equals the value (up to omitempty), no non-repeating option is emitted twice.
 """
-import collections, json, os, re, sys
+import collections, json, os, re, sys, time
 import verifkit.core as core
 from verifkit.core import *
 
@@ -116,12 +116,13 @@ class Runner:
         self.stats = collections.Counter()
         self.classes = collections.Counter()
         self.pending, self.disagree = [], []
+        self.shrink_deadline = time.time() + 150
         if os.path.exists(PROPOSED):
             try:
-                have = {f["id"] for f in c.known}
+                # a proposed entry refines the merged entry of the same id until it is merged again
                 for f in json.load(open(PROPOSED)).get("findings", []):
-                    if f.get("property") == PID and f["id"] not in have:
-                        c.known.append(f)
+                    if f.get("property") == PID:
+                        c.known[:] = [k for k in c.known if k["id"] != f["id"]] + [f]
             except Exception as e:
                 c.oblige("proposed findings file is readable", False, str(e))
 
@@ -176,15 +177,19 @@ class Runner:
     def shrink(self, r):
         want = " ".join(r.verdict.split(" ")[:2])
         best = (pinned_line(r), case_text(r))
+        if time.time() > self.shrink_deadline:
+            return best
         tmp = os.path.join(WORK, "c14_shrink_%d.tsv" % os.getpid())
         try:
-            for _ in range(6):
+            for _ in range(5):
+                if time.time() > self.shrink_deadline:
+                    break
                 open(tmp, "w").write(best[0] + "\n")
                 cands = ["\t".join(x) for x in harness(self.hb, "c09-cands", doc=1, **{"in": tmp}) if len(x) == 5]
                 cands = [x for x in dict.fromkeys(cands) if x != best[0] and len(x) < len(best[0])]
                 if not cands:
                     break
-                runs, _ = self.rerun(cands[:50])
+                runs, _ = self.rerun(cands[:30])
                 hit = None
                 for x in runs:
                     if x.verdict.startswith(want):
@@ -204,6 +209,7 @@ class Runner:
     def report(self):
         c = self.c
         seen, reported = set(), 0
+        self.shrink_deadline = time.time() + 150
         for name, r, text in self.pending:
             cls = re.sub(r"(builder|at|diag|text|option)=.*", "", re.sub(r"[0-9]+", "N", r.verdict))[:160]
             if cls in seen:
@@ -212,7 +218,7 @@ class Runner:
             line, stext = self.shrink(r)
             if c.match_known(stext):
                 continue
-            if reported < 5:
+            if reported < 3:
                 f = line.split("\t")
                 c.violation({"kind": "oracle-failure", "stream": name, "oracle": r.verdict, "format": f[0], "defs": f[1], "veneers": f[2],
                              "builder": f[3], "doc": f[4], "impl": r.impl[:800], "model": r.model[:800], "case_text": stext,
@@ -240,6 +246,11 @@ def main():
         "Go map iteration order: runs of calls of one index option are compared as sorted lists",
     ]
     hb, err = build_go("verifharness", "harness", files=FILES, tag="c14")
+    for _ in range(2):
+        # another check trimming the shared Go build cache while we link is not a fact about cog
+        if hb is None and "go-build" in err:
+            time.sleep(3)
+            hb, err = build_go("verifharness", "harness", files=FILES, tag="c14")
     c.oblige("harness + lab build against the working tree of %s" % core.REPO, hb is not None, err)
     thms = theorem_names()
     c.oblige("Props/C14.lean states theorems", len(thms) >= 3, thms)
